@@ -267,6 +267,29 @@ class Checker(object):
 
         def fails(x):
             return self.judge_once(how, x)[0] == kind
+        # one mechanism of its own: the name of a declared sort is written
+        # verbatim (a recorded finding), whatever the formula around it
+        if kind.startswith('malformed'):
+            def unames(t, acc):
+                if t[0] == 'U':
+                    acc.append(t[1])
+                for x in t[1:]:
+                    if isinstance(x, tuple) and x and isinstance(x[0], str):
+                        unames(x, acc)
+                    elif isinstance(x, tuple):
+                        for y in x:
+                            if isinstance(y, tuple) and y and \
+                                    isinstance(y[0], str):
+                                unames(y, acc)
+                return acc
+            needs = [n for t in B.types_in(b) for n in unames(t, [])
+                     if any(ch in n for ch in ' ;()#|"') or n[:1].isdigit()]
+            if needs:
+                rep.violation('C07/sort-name-not-quoted',
+                              '%s print: the declared sort %r is written '
+                              'without quotes: %s' % (how, needs[0], info),
+                              {'bp': B.to_json(b), 'how': how, 'kind': kind})
+                return
         key, m = self.sb.classify(PROP, how, kind, b, fails)
         what = info
         if m is not None and m is not b:
@@ -339,6 +362,15 @@ def special_cases(names):
         if i % 3 == 0:
             cj[0] = ('not', None, (cj[0],))
         out.append(('and', None, tuple(cj + [p])))
+    # declared sorts whose names need quoting
+    for sn in ('my sort', 'S;T', '0S', 'a(b', 'Sort#1', 'x y z'):
+        st = ('U', sn)
+        out.append(('and', None, (('eq', None, (B.Sym('hs_a', st),
+                                                B.Sym('hs_b', st))), p)))
+        out.append(('forall', (('hs_q', st),), (
+            ('eq', None, (B.Sym('hs_q', st), B.Sym('hs_b', st))),)))
+        out.append(('eq', None, (B.Sym('hs_c', ('U', 'Box', (st,))),
+                                 B.Sym('hs_d', ('U', 'Box', (st,))))))
     # sorts that occur only in a binder
     for qt in (('U', 'OnlyBound'), B.ARR(('U', 'OnlyIdx'), B.INT),
                ('U', 'Pair', (('U', 'OnlyArg'), B.INT)), B.BV(5)):
